@@ -826,47 +826,77 @@ def find_in_ast(search, node):
     if not search or hasattr(node, "_location") and node._location == search:
         return node
 
-    child_node, cursor, current_search = node, node.body, deepcopy(search)
+    def names_of(child_node):
+        """
+        :param child_node: AST node
+        :type child_node: ```AST```
+
+        :returns: The names this node can be addressed by
+        :rtype: ```Tuple[str, ...]```
+        """
+        if isinstance(child_node, AnnAssign):
+            return (
+                (child_node.target.id,) if isinstance(child_node.target, Name) else ()
+            )
+        elif isinstance(child_node, Assign):
+            return tuple(
+                target.id for target in child_node.targets if isinstance(target, Name)
+            )
+        elif isinstance(child_node, (FunctionDef, ClassDef)):
+            return (child_node.name,)
+        return ()
+
+    current_search = list(search)
+    if hasattr(node, "name") and node.name == current_search[0]:
+        # The root itself can be the first part of the location
+        current_search.pop(0)
+
+    cursor = node
     while len(current_search):
         query = current_search.pop(0)
-        if (
-            len(current_search) == 0
-            and hasattr(child_node, "name")
-            and child_node.name == query
-        ):
-            return child_node
+        if isinstance(cursor, FunctionDef):
+            # Only arguments are addressable within a function
+            if len(current_search):
+                return None
+            idx_arg = next(
+                filter(
+                    lambda idx_arg: idx_arg[1].arg == query,
+                    enumerate(cursor.args.args),
+                ),
+                None,
+            )
+            if idx_arg is not None:
+                if len(cursor.args.defaults) > idx_arg[0]:
+                    setattr(idx_arg[1], "default", cursor.args.defaults[idx_arg[0]])
+                return idx_arg[1]
+            idx_arg = next(
+                filter(
+                    lambda idx_arg: idx_arg[1].arg == query,
+                    enumerate(cursor.args.kwonlyargs),
+                ),
+                None,
+            )
+            if idx_arg is not None:
+                if (
+                    len(cursor.args.kw_defaults) > idx_arg[0]
+                    and cursor.args.kw_defaults[idx_arg[0]] is not None
+                ):
+                    setattr(
+                        idx_arg[1], "default", cursor.args.kw_defaults[idx_arg[0]]
+                    )
+                return idx_arg[1]
+            return None
 
-        for child_node in cursor:
-            if hasattr(child_node, "_location") and child_node._location == search:
-                return child_node
-
-            elif isinstance(child_node, FunctionDef):
-                if len(current_search):
-                    query = current_search.pop(0)
-                _cursor = next(
-                    filter(
-                        lambda idx_arg: idx_arg[1].arg == query,
-                        enumerate(child_node.args.args),
-                    ),
-                    None,
-                )
-                if _cursor is not None:
-                    if len(child_node.args.defaults) > _cursor[0]:
-                        setattr(
-                            _cursor[1], "default", child_node.args.defaults[_cursor[0]]
-                        )
-                    cursor = _cursor[1]
-                    if len(current_search) == 0:
-                        return cursor
-            elif (
-                isinstance(child_node, AnnAssign)
-                and isinstance(child_node.target, Name)
-                and child_node.target.id == query
-            ):
-                return child_node
-            elif hasattr(child_node, "name") and child_node.name == query:
-                cursor = child_node.body
-                break
+        cursor = next(
+            filter(
+                lambda child_node: query in names_of(child_node),
+                getattr(cursor, "body", iter(())),
+            ),
+            None,
+        )
+        if cursor is None:
+            return None
+    return cursor
 
 
 def annotate_ancestry(node):
